@@ -98,11 +98,13 @@ theorem decl_frame (d : StructDecl) (a b : Val) (ha : (relTy (shapeOf d)).wt a) 
         valAt r j = some vr ∧ (if j ∈ es.map (·.1) then e.2.2.post va vb vr else vr = va) :=
   C03.subset_any_order (fieldTys d.fields) a b ha hb es hsub hnd
 
-/-- the same for every enum declaration -/
+/-- the same for every enum declaration: the result is `b`, or — when `a == b` under the enum's own `PartialEq`
+and nothing is sent — still `a` -/
 theorem enum_decl_roundtrip (d : EnumDecl) (a b : Val) :
-    (semTy (shapeOfEnum d)).apply a ((semTy (shapeOfEnum d)).diff a b) = .ok b := by
-  obtain ⟨r, h1, _, h3⟩ := C01.roundtrip (shapeOfEnum d) a b (by simp [shapeOfEnum, relTy, enumRel]) (by simp [shapeOfEnum, relTy, enumRel])
-  have : r = b := by simpa [shapeOfEnum, relTy, enumRel] using h3
-  subst this; exact h1
+    ∃ r, (semTy (shapeOfEnum d)).apply a ((semTy (shapeOfEnum d)).diff a b) = .ok r ∧
+      (r = b ∨ (r = a ∧ veq b a = true)) := by
+  obtain ⟨r, h1, _, h3⟩ := C01.roundtrip (shapeOfEnum d) a b (by simp [shapeOfEnum, relTy, enumRel])
+    (by simp [shapeOfEnum, relTy, enumRel])
+  exact ⟨r, h1, by simpa [shapeOfEnum, relTy, enumRel] using h3⟩
 
 end C17
